@@ -218,10 +218,59 @@ pub fn periodic_pairs(depth: u8) -> Vec<(u32, u32)> {
   v
 }
 
+/// Byte-permutation partners: for a few hundred generic coordinates i (all four bytes distinct and
+/// non-zero where the depth allows) the coordinate j made of the SAME bytes in each of the 24
+/// orders, and of the same nibbles rotated: a shortcut comparing a byte (half-word) of one
+/// coordinate with another byte (half-word) of the other one is exercised by these pairs only.
+pub fn byte_permutation_pairs(depth: u8) -> Vec<(u32, u32)> {
+  let mut v: Vec<(u32, u32)> = vec![];
+  if depth < 17 {
+    return v;
+  }
+  let mask = ((1u64 << depth) - 1) as u32;
+  let perms: Vec<[usize; 4]> = {
+    let mut p = vec![];
+    for a in 0..4 {
+      for b in 0..4 {
+        for c in 0..4 {
+          for d in 0..4 {
+            if a != b && a != c && a != d && b != c && b != d && c != d {
+              p.push([a, b, c, d]);
+            }
+          }
+        }
+      }
+    }
+    p
+  };
+  for k in 0..256u32 {
+    // generic bytes; the top byte is kept below 2^(depth - 24) so that it survives the mask
+    let x = k.wrapping_mul(2_654_435_761).wrapping_add(0x9E37_79B9);
+    let top_bits = depth.saturating_sub(24).min(8) as u32;
+    let b = [(x & 0xFF).max(1), ((x >> 8) & 0xFF).max(2), ((x >> 16) & 0xFF).max(3), if top_bits == 0 { 0 } else { ((x >> 24) & ((1 << top_bits) - 1)).max(1) }];
+    // every byte small enough to be a top byte too (so that each permutation stays in range)
+    let small = |t: u32| if top_bits == 0 { t } else { (t & ((1 << top_bits) - 1)).max(1) };
+    for variant in 0..2 {
+      let bb: [u32; 4] = if variant == 0 { b } else { [small(b[0]), small(b[1]), small(b[2]), b[3]] };
+      let i = (bb[0] | bb[1] << 8 | bb[2] << 16 | bb[3] << 24) & mask;
+      for p in &perms {
+        let j = (bb[p[0]] | bb[p[1]] << 8 | bb[p[2]] << 16 | bb[p[3]] << 24) & mask;
+        v.push((i, j));
+      }
+      v.push((i, i.rotate_left(4) & mask));
+      v.push((i, i.rotate_right(4) & mask));
+      v.push((i, (i >> 16 | i << 16) & mask));
+    }
+  }
+  v.sort();
+  v.dedup();
+  v
+}
+
 /// The periodic pairs as cells of an equatorial and of a polar base cell.
 pub fn periodic_cells(depth: u8) -> Vec<u64> {
   let mut v = vec![];
-  for (i, j) in periodic_pairs(depth) {
+  for (i, j) in periodic_pairs(depth).into_iter().chain(byte_permutation_pairs(depth).into_iter()) {
     v.push(encode(depth, 5, i, j));
     v.push(encode(depth, 1, i, j));
   }
